@@ -403,6 +403,9 @@ def label_clone(W, n, c, off):
         lab = W.lab.get(id(orig))
         if lab is not None and copy is not None and id(copy) not in W.lab:
             W.reg(kind, lab[1] + off, copy)
+            if not hasattr(W, "clone_pairs"):
+                W.clone_pairs = []
+            W.clone_pairs.append((kind, orig, copy))
     reg("netlist", n, c)
     if len(n._libraries) != len(c._libraries):
         return False
@@ -451,6 +454,13 @@ def corr_case(seed, drv, res):
         if out != m["res"]:
             return        # reported by C01/C02
         cur = dump_impl(W)
+    if rng.random() < 0.5:
+        # element clone on the raw heap (no model here: the netlist part below uses the model on the same heap,
+        # so this runs only in the cases that then stop)
+        heap_elem_clone(W, rng, res, seed, script)
+        res.case(stable_hash([seed, "heapclone"]), nontrivial=len(script) >= 10)
+        return
+
     def cloneable(n):
         # every pin on a wire of the netlist belongs to the netlist (Netlist.clone asserts it), top instance with a reference
         if not n._libraries or (n._top_instance is not None and n._top_instance._reference is None):
@@ -509,6 +519,7 @@ def corr_case(seed, drv, res):
     if not ok:
         res.spec_failure("netlist.clone.not_identical", inp, "shape of the copy differs (parallel traversal failed)")
         return
+    after_clone_checks(W, res, "netlist", dict(inp, script=script))
     after = dump_impl(W)
     drv.ask({"cmd": "double", "off": off})
     md = canon_model_dump(drv.ask({"cmd": "dump", "n": W.counts()}))
@@ -537,6 +548,50 @@ def corr_case(seed, drv, res):
     res.dist("clone:corr")
 
 
+def after_clone_checks(W, res, what, inp):
+    """after ANY clone: the copy carries the same naming policy (.NS is element data: 'same names, data'), and the
+    heap — originals, copies and the shared bookkeeping together — satisfies the C01/C02 statement-level oracle"""
+    from engines.irlib import oracle
+    for (kind, orig, copy) in getattr(W, "clone_pairs", []):
+        if hasattr(orig, "_data") and orig._data.get(".NS") != copy._data.get(".NS"):
+            res.spec_failure("%s.clone.naming_policy_differs" % what, inp, "%s: original %r, copy %r" % (kind, orig._data.get(".NS"), copy._data.get(".NS")))
+            break
+    W.clone_pairs = []
+    for clause, detail in oracle(W):
+        res.spec_failure("%s.clone.ill_formed.%s" % (what, clause), inp, detail)
+        break
+
+
+def heap_elem_clone(W, rng, res, seed, script):
+    """random heap (any state the public calls can reach): clone a random element of any kind; a clone that the
+    library refuses (assertion on connectivity it cannot copy) is skipped, one that it returns must be well-formed"""
+    kind = rng.choice(ELEM_KINDS)
+    labs = sorted(W.objs[kind])
+    if not labs:
+        return
+    xl = rng.choice(labs)
+    x = W.objs[kind][xl]
+    inp = {"seed": seed, "what": "corr", "heap_clone": kind, "label": xl, "script": script}
+    off = max(W.counts().values()) + 1
+    try:
+        c = x.clone()
+    except AssertionError:
+        res.dist("clone:heap:%s:refused" % kind)
+        return
+    except Exception as e:
+        if kind == "netlist" and (x._top_instance is not None and x._top_instance._reference is None):
+            return
+        res.spec_failure("%s.clone.raises.%s" % (kind, type(e).__name__), inp, repr(e)[:200])
+        return
+    W.keep.append(c)
+    W.clone_pairs = []
+    if not label_elem_clone(W, kind, x, c, off):
+        res.spec_failure("%s.clone.not_identical" % kind, inp, "shape of the copy differs (parallel traversal failed)")
+        return
+    after_clone_checks(W, res, kind, inp)
+    res.dist("clone:heap:%s" % kind)
+
+
 def corr_open_netlist(seed, drv, res, W, pick, script):
     """a netlist whose instances (or top instance) reference definitions OUTSIDE it: the copy keeps those
     references and joins the outside definitions' reference sets; model: S.cloneElem .netlist"""
@@ -553,6 +608,7 @@ def corr_open_netlist(seed, drv, res, W, pick, script):
     if not label_clone(W, n, c, off):
         res.spec_failure("netlist.clone.not_identical", inp, "shape of the copy differs (parallel traversal failed)")
         return
+    after_clone_checks(W, res, "netlist", dict(inp, script=script))
     after = dump_impl(W)
     m = drv.ask({"cmd": "cloneElem", "kind": "netlist", "x": lab, "off": off})
     if any(r != "ok" for r in m.get("res", ["?"])):
@@ -666,6 +722,7 @@ def corr_case_gen(seed, drv, res):
     if not label_clone(W, nl, c, off):
         res.spec_failure("netlist.clone.not_identical", inp, "shape of the copy differs (parallel traversal failed)")
         return
+    after_clone_checks(W, res, "netlist", inp)
     after = dump_impl(W)
     drv.ask({"cmd": "double", "off": off})
     md = canon_model_dump(drv.ask({"cmd": "dump", "n": W.counts()}))
@@ -692,6 +749,9 @@ def label_elem_clone(W, kind, x, c, off):
         lab = W.lab.get(id(orig))
         if lab is not None and copy is not None and id(copy) not in W.lab:
             W.reg(k, lab[1] + off, copy)
+            if not hasattr(W, "clone_pairs"):
+                W.clone_pairs = []
+            W.clone_pairs.append((k, orig, copy))
 
     def port(p0, p1):
         reg("port", p0, p1)
@@ -792,6 +852,7 @@ def corr_case_elem(seed, drv, res, kind=None):
         if not label_elem_clone(W, kind, x, c, off):
             res.spec_failure("%s.clone.not_identical" % kind, inp, "shape of the copy differs (parallel traversal failed)")
             return
+        after_clone_checks(W, res, kind, inp)
         after = dump_impl(W)
         m = drv.ask({"cmd": "cloneElem", "kind": kind, "x": xl, "off": off})
         if any(r != "ok" for r in m.get("res", ["?"])):
